@@ -68,6 +68,7 @@ def point(pubkey_: bytes) -> typing.Tuple[int]:
         y = int.from_bytes(payload[32:], "big")
     else:
         raise ValueError(f"unrecognized version: {version}")
+    assert len(pubkey_) == (65 if version == 4 else 33), "pubkey length does not match prefix"
     assert bits.ecmath.point_is_on_curve(x, y), "invalid pubkey"
     return (x, y)
 
